@@ -239,7 +239,8 @@ Definition nproposal (it : nat) (s : nst) (fe1 fe2 : R) : (R * (R * R * R * R) *
         (if Req_EM_T (x2 - x1) 0 then None else Some ((fe2 - fe1) / (x2 - x1)))
       else
         let st := if n_relstep cfg then x2 * n_h cfg else n_h cfg in
-        if Req_EM_T st 0 then None else Some ((f (x2 + st) - fe2) / st) in
+        let fs := f (x2 + st) in      (* evaluated before the division (which raises when st = 0) *)
+        if Req_EM_T st 0 then None else Some ((fs - fe2) / st) in
     match oder with
     | None => inr 0%nat
     | Some der =>
